@@ -479,30 +479,31 @@ def check(prop: str) -> int:
 
 
 def replay(doc: dict) -> int:
+    """Re-execute the case on the current tree and let TLC (PersistTrace.tla) judge it again."""
     common.enter_scratch()
     c = doc["case"]
     loop = asyncio.new_event_loop()
     d = tempfile.mkdtemp(prefix="verif-replay-")
+    work = tlc.scratch()
     try:
+        tlc.stage(work)
         if doc["kind"] == "persist-load":
-            path = os.path.join(d, "f.json")
-            if c["class"] != "missing":
-                content = bytes.fromhex(c["content_hex"])
-                with open(path, "wb") as fil:
-                    fil.write(content)
-            res, nodes = _load(loop, path, via_context=False)
-            print("load ->", res, json.dumps(nodes)[:300])
-            bad = res not in ("ok", "readerror")
+            content = bytes.fromhex(c["content_hex"]) if c.get("content_hex") is not None else None
+            case = _load_worker(([(c["class"], content, c["file"] if c["class"] == "json" else {"j": "null"})], 0))[0]
+            print("load ->", case["res"], "loaded:", json.dumps(case["loaded"])[:300])
         else:
             gw = _new_gateway(os.path.join(d, "x.json"))
             gwdriver.build_registry(gw, c["reg"])
             case = roundtrip_case(loop, d, gw, 0)
-            print("save ->", case["saveRes"], "load ->", case["loadRes"], "equal:", case["loaded"] == _norb(c["reg"]))
-            bad = case["saveRes"] != "ok" or case["loadRes"] != "ok" or case["loaded"] != _norb(c["reg"])
-        if bad:
+            print("save ->", case["saveRes"], "load ->", case["loadRes"], "legacy load ->", case["loadLegacyRes"] or "-",
+                  "native equal:", case["loaded"] == _norb(c["reg"]), "legacy equal:", (not case["hasLegacy"]) or case["loadedLegacy"] == _norb(c["reg"]))
+        rejected, _ = _judge([{k: v for k, v in case.items() if k not in ("content_preview", "content_hex", "via", "origin")}], work, 1)
+        if rejected:
             print(f"VIOLATION property={doc.get('property')} replay=(this file)")
             return 1
+        print("accepted by the reference")
         return 0
     finally:
         loop.close()
         shutil.rmtree(d, ignore_errors=True)
+        shutil.rmtree(work, ignore_errors=True)
